@@ -3,10 +3,11 @@ import SFV.Model.Bytes
 
 Block structure, offsets, padding, end-of-archive and the read loops are modelled as the code has them
 (`AioTarStream.addfile` / `_close`, `AioTarStream.next`, `AioTarInfo.fromtarfile` / `_proc_builtin`,
-`FileStreamReaderWrapper.read`, `copyfileobj` / `write`). The *content* of a 512-byte header block is CPython's
-(`TarInfo.tobuf` / `frombuf`) and enters through a `Codec`: any pair of functions with `dec (enc n s) = (n, s)` on the
-headers it declares valid. Members are regular files (directories are members of size 0); GNU long-name and pax
-extension members are validated by the correspondence check only. -/
+`AioTarInfo._proc_gnulong`, `FileStreamReaderWrapper.read`, `copyfileobj` / `write`). The *content* of a 512-byte header
+block is CPython's (`TarInfo.tobuf` / `frombuf`) and enters through a `Codec`: functions with `dec (enc n s) = reg n s` and
+`dec (encLong n) = long n` on the headers it declares valid. Members are regular files (directories are members of size
+0) with names of any length (GNU long-name records for names over 100 bytes); pax extension members, links and sparse
+files are validated by the correspondence check only. -/
 namespace SFV.Tar
 open SFV.Bytes
 
@@ -18,14 +19,25 @@ structure Member where
   data : List Byte
 deriving DecidableEq, Repr
 
+/-- what a header block announces: an ordinary member, or a GNU long-name record of `n` bytes (`././@LongLink`, type `L`) -/
+inductive Hd
+  | reg (name : List Byte) (size : Nat)
+  | long (n : Nat)
+deriving DecidableEq, Repr
+
 /-- header encoding/decoding (CPython's `tobuf`/`frombuf`): what the theorems assume about it -/
 structure Codec where
-  enc : List Byte → Nat → List Byte
-  dec : List Byte → Option (List Byte × Nat)
+  enc : List Byte → Nat → List Byte          -- ordinary header: name (at most 100 bytes), size
+  encLong : Nat → List Byte                  -- GNU long-name header announcing `n` bytes
+  dec : List Byte → Option Hd
   valid : List Byte → Nat → Prop
+  validLong : Nat → Prop
   enc_len : ∀ n s, (enc n s).length = 512
-  dec_enc : ∀ n s, valid n s → dec (enc n s) = some (n, s)
+  encLong_len : ∀ n, (encLong n).length = 512
+  dec_enc : ∀ n s, valid n s → dec (enc n s) = some (.reg n s)
+  dec_encLong : ∀ n, validLong n → dec (encLong n) = some (.long n)
   enc_nonzero : ∀ n s, valid n s → (enc n s).all (· == 0) = false
+  encLong_nonzero : ∀ n, validLong n → (encLong n).all (· == 0) = false
 
 def zeros (n : Nat) : List Byte := List.replicate n 0
 
@@ -36,8 +48,14 @@ def blockLen (n : Nat) : Nat := n + padLen n
 
 /-! ## writer: `addfile` for every member, then `_close` -/
 
+/-- `TarInfo.tobuf(GNU_FORMAT)`: names longer than 100 bytes are preceded by a long-name record (header, the name and a
+    NUL padded to a block); the ordinary header then carries the first 100 bytes of the name -/
+def longRecord (c : Codec) (name : List Byte) : List Byte :=
+  if name.length ≤ 100 then []
+  else c.encLong (name.length + 1) ++ (name ++ [0] ++ zeros (padLen (name.length + 1)))
+
 def encMember (c : Codec) (m : Member) : List Byte :=
-  c.enc m.name m.data.length ++ m.data ++ zeros (padLen m.data.length)
+  longRecord c m.name ++ (c.enc (m.name.take 100) m.data.length ++ m.data ++ zeros (padLen m.data.length))
 
 def writeMembers (c : Codec) (ms : List Member) : List Byte := ms.flatMap (encMember c)
 
@@ -53,9 +71,13 @@ def writeArchive (c : Codec) (ms : List Member) : List Byte :=
 inductive Hdr
   | empty | truncated | eof | invalid
   | hdr (name : List Byte) (size : Nat)
+  | longname (n : Nat)
+
+/-- `tarfile.nts`: the bytes up to the first NUL -/
+def nts (bs : List Byte) : List Byte := bs.takeWhile (· != 0)
 
 /-- `TarInfo.frombuf`: the checks in the order of the code -/
-abbrev Dec := List Byte → Option (List Byte × Nat)
+abbrev Dec := List Byte → Option Hd
 
 def classify (dec : Dec) (buf : List Byte) : Hdr :=
   if buf.length = 0 then .empty
@@ -63,7 +85,8 @@ def classify (dec : Dec) (buf : List Byte) : Hdr :=
   else if buf.all (· == 0) then .eof
   else match dec buf with
     | none => .invalid
-    | some (n, s) => .hdr n s
+    | some (.reg n s) => .hdr n s
+    | some (.long n) => .longname n
 
 inductive Outcome
   | ok (ms : List Member)
@@ -84,6 +107,16 @@ def readMembers (dec : Dec) : Nat → Reader → Nat → List Member → Outcome
           | .hdr name size =>
               let d := hb.2.read size
               readMembers dec fuel d.2 (hb.2.pos + blockLen size) (acc ++ [{ name := name, data := d.1 }])
+          | .longname n =>
+              -- `_proc_gnulong`: read the name blocks, then the real header; any problem with that header is a
+              -- `SubsequentHeaderError`, which `next()` turns into `ReadError` wherever it happens
+              let nb := hb.2.read (blockLen n)
+              let hb2 := nb.2.read 512
+              (match classify dec hb2.1 with
+                | .hdr _ size =>
+                    let d := hb2.2.read size
+                    readMembers dec fuel d.2 (hb2.2.pos + blockLen size) (acc ++ [{ name := nts nb.1, data := d.1 }])
+                | _ => .error)
           | .eof => .ok acc
           | _ => if offset = 0 then .error else .ok acc
 
